@@ -93,6 +93,85 @@ func TestVerifSqlBreakerErrors(t *testing.T) {
 				db.Close()
 			}
 		}
+		// transactions: the error the breaker classifies is what Transact returns, i.e. the
+		// function's error, a commit error, or a *wrapping* of the roll-back error (never the
+		// benign sentinel itself), or the error made from a panic
+		type txc struct {
+			name        string
+			fnErr       error
+			panics      bool
+			rollbackErr error
+			commitErr   error
+			benign      bool
+		}
+		drv := errors.New("bad connection")
+		txs := []txc{
+			{"fn=driver-error/rollback=ErrTxDone", drv, false, sql.ErrTxDone, nil, false},
+			{"fn=deadline/rollback=ErrTxDone", context.DeadlineExceeded, false, sql.ErrTxDone, nil, false},
+			{"fn=driver-error/rollback=Canceled", drv, false, context.Canceled, nil, false},
+			{"fn=driver-error/rollback=ErrNoRows", drv, false, sql.ErrNoRows, nil, false},
+			{"fn=ErrNoRows/rollback=driver-error", sql.ErrNoRows, false, drv, nil, false},
+			{"fn=ErrNoRows/rollback=ok", sql.ErrNoRows, false, nil, nil, true},
+			{"fn=custom/rollback=driver-error", custom, false, drv, nil, false},
+			{"fn=panic/rollback=ok", nil, true, nil, nil, false},
+			{"fn=panic/rollback=ErrTxDone", nil, true, sql.ErrTxDone, nil, false},
+			{"fn=ok/commit=ErrTxDone", nil, false, nil, sql.ErrTxDone, true},
+			{"fn=ok/commit=driver-error", nil, false, nil, drv, false},
+		}
+		for _, entry := range []string{"Transact", "TransactCtx"} {
+			for _, k := range txs {
+				db, mock, err := sqlmock.New()
+				if err != nil {
+					r.Failf("sqlmock: %v", err)
+					return
+				}
+				conn := NewConnFromDB(db, func(c *commonConn) {
+					c.accept = func(e error) bool { return e == custom }
+				})
+				do := func(probe bool) (err error) {
+					mock.ExpectBegin()
+					switch {
+					case probe:
+						mock.ExpectCommit()
+					case k.panics || k.fnErr != nil:
+						x := mock.ExpectRollback()
+						if k.rollbackErr != nil {
+							x.WillReturnError(k.rollbackErr)
+						}
+					default:
+						x := mock.ExpectCommit()
+						if k.commitErr != nil {
+							x.WillReturnError(k.commitErr)
+						}
+					}
+					body := func() error {
+						if probe {
+							return nil
+						}
+						if k.panics {
+							panic("boom")
+						}
+						return k.fnErr
+					}
+					if entry == "Transact" {
+						return conn.Transact(func(Session) error { return body() })
+					}
+					return conn.TransactCtx(context.Background(), func(context.Context, Session) error { return body() })
+				}
+				for j := 0; j < 8; j++ {
+					do(false)
+				}
+				perr := do(true)
+				admitted := perr != breaker.ErrServiceUnavailable
+				c.Eval(fmt.Sprintf("%s/%s/admitted=%v", entry, k.name, admitted), func() any {
+					return map[string]any{"path": entry, "error": k.name, "probe_admitted": admitted, "probe_result": fmt.Sprint(perr)}
+				})
+				if admitted != k.benign {
+					c.Violation(entry+"/"+k.name, "error classification", fmt.Sprintf("8 %s calls with %s, probe admitted=%v (%v) want %v", entry, k.name, admitted, perr, k.benign))
+				}
+				db.Close()
+			}
+		}
 	})
 	c.Done()
 }
